@@ -134,8 +134,9 @@ Definition f_on  : str := s_ "__ON__".
 Definition f_off : str := s_ "__OFF__".
 Fixpoint skip_nonspace (s:str) : str :=
   match s with [] => [] | c :: r => if isspace c then s else skip_nonspace r end.
+(* blanks other than newline (the repaired scanner stops at the end of the line) *)
 Fixpoint skip_space (s:str) : str :=
-  match s with [] => [] | c :: r => if isspace c then skip_space r else s end.
+  match s with [] => [] | c :: r => if isspace c && negb (Ascii.eqb c nl) then skip_space r else s end.
 (* after a followup matched: Python returns at newline or EOF (true), breaks having consumed a non-blank (false) *)
 Fixpoint after_followup (s:str) (line:nat) : (str * nat * bool) :=
   match s with
